@@ -72,3 +72,9 @@ M("c12-skip-stops-at-cancelled-receiver", "C12", MEM, "MemoryObjectSendStream.se
 
 M("c12-anext-swallows-errors", "C12", "abc/_streams.py", "UnreliableObjectReceiveStream.__anext__", "        except EndOfStream:", "        except Exception:", ["R12-i"])
 M("c12-anext-drops-item", "C12", "abc/_streams.py", "UnreliableObjectReceiveStream.__anext__", "            return await self.receive()", "            await self.receive()\n            return await self.receive()", ["R12-i"])
+
+# from seeded changes C12/c and C12/d (round 2)
+M("c12-close-drops-receivers-of-live-stream", "C12", MEM, "MemoryObjectSendStream.close",
+  "            if self._state.open_send_channels == 0:\n                receive_events = list(self._state.waiting_receivers.keys())\n                self._state.waiting_receivers.clear()\n",
+  "            receive_events = list(self._state.waiting_receivers.keys())\n            self._state.waiting_receivers.clear()\n            if self._state.open_send_channels == 0:\n", ["R12-e"])
+M("c12-close-clears-buffer", "C12", MEM, "MemoryObjectReceiveStream.close", "            self._state.open_receive_channels -= 1\n", "            self._state.open_receive_channels -= 1\n            self._state.buffer.clear()\n", ["R12-e"])
